@@ -142,6 +142,128 @@ func (m *mp) dumpSN(sn *state.StateNode, markedIDs map[string]bool) snDump {
 	return d
 }
 
+// apiSNs rebuilds the content of every state node from the API alone, without looking at the live cluster state:
+// NodeClaims with a provider id and Nodes, joined by provider id; the requests / daemonset requests / host ports of the
+// pods that are bound to the node and not terminal (phase Succeeded / Failed) — a terminating pod still holds its
+// resources.  Only "marked for deletion" is taken from the harness (it is an in-memory decision, not an API fact).
+func (m *mp) apiSNs(c *kit.Ctx) []snDump {
+	ncs := &v1.NodeClaimList{}
+	nodes := &corev1.NodeList{}
+	pods := &corev1.PodList{}
+	for _, l := range []client.ObjectList{ncs, nodes, pods} {
+		if err := m.cl.List(m.ctx, l); err != nil {
+			panic(err)
+		}
+	}
+	byID := map[string]*snDump{}
+	get := func(id string) *snDump {
+		if d, ok := byID[id]; ok {
+			return d
+		}
+		d := &snDump{NodeLabels: [][2]string{}, ClaimLabels: [][2]string{}, NodeTaints: []sk.Taint{}, ClaimTaints: []sk.Taint{}, Startup: []sk.Taint{},
+			NodeAlloc: sk.RL{}, ClaimAlloc: sk.RL{}, PodReq: sk.RL{}, DSReq: sk.RL{}, Ports: []usageEntry{}, Marked: m.marked[id]}
+		byID[id] = d
+		return d
+	}
+	for i := range ncs.Items {
+		nc := &ncs.Items[i]
+		if nc.Status.ProviderID == "" {
+			continue
+		}
+		d := get(nc.Status.ProviderID)
+		d.HasClaim, d.ClaimName, d.ClaimLabels, d.ClaimTaints, d.Startup, d.ClaimAlloc = true, nc.Name, sortedPairs(nc.Labels), sk.DumpTaints(nc.Spec.Taints),
+			sk.DumpTaints(nc.Spec.StartupTaints), sk.Milli(nc.Status.Allocatable)
+		d.CDeleting = !nc.DeletionTimestamp.IsZero() || nc.StatusConditions().Get(v1.ConditionTypeInstanceTerminating).IsTrue()
+	}
+	for i := range nodes.Items {
+		n := &nodes.Items[i]
+		id := n.Spec.ProviderID
+		managed := n.Labels[v1.NodePoolLabelKey] != ""
+		if id == "" {
+			if managed {
+				continue
+			}
+			id = n.Name
+		}
+		if managed && n.Labels[corev1.LabelInstanceTypeStable] == "" && n.Labels[v1.NodeInitializedLabelKey] == "" {
+			continue
+		}
+		d := get(id)
+		d.HasNode, d.NodeName, d.NodeLabels, d.NodeTaints, d.NodeAlloc = true, n.Name, sortedPairs(n.Labels), sk.DumpTaints(n.Spec.Taints), sk.Milli(n.Status.Allocatable)
+		d.NDeleting = !n.DeletionTimestamp.IsZero()
+		var bound, ds []*corev1.Pod
+		for j := range pods.Items {
+			p := &pods.Items[j]
+			if p.Spec.NodeName != n.Name {
+				continue
+			}
+			if p.Status.Phase == corev1.PodSucceeded || p.Status.Phase == corev1.PodFailed {
+				c.Count("bound-pod.terminal-not-counted")
+				continue
+			}
+			if p.DeletionTimestamp != nil {
+				c.Count("bound-pod.terminating-counted")
+			}
+			bound = append(bound, p)
+			for _, o := range p.OwnerReferences {
+				if o.Kind == "DaemonSet" {
+					ds = append(ds, p)
+				}
+			}
+			hp := []sk.HostPort{}
+			for _, x := range scheduling.GetHostPorts(p) {
+				hp = append(hp, sk.HostPort{IP: x.IP.String(), Port: x.Port, Proto: string(x.Protocol)})
+			}
+			d.Ports = append(d.Ports, usageEntry{Who: p.Namespace + "/" + p.Name, Ports: hp})
+		}
+		if len(bound) > 0 {
+			d.PodReq = sk.Milli(resources.RequestsForPods(bound...))
+		}
+		if len(ds) > 0 {
+			d.DSReq = sk.Milli(resources.RequestsForPods(ds...))
+		}
+		sort.Slice(d.Ports, func(i, j int) bool { return d.Ports[i].Who < d.Ports[j].Who })
+	}
+	ids := make([]string, 0, len(byID))
+	for id := range byID {
+		ids = append(ids, id)
+	}
+	sort.Strings(ids)
+	out := []snDump{}
+	for _, id := range ids {
+		d := byID[id]
+		registered := d.HasNode && lookup(d.NodeLabels, v1.NodeRegisteredLabelKey) == "true"
+		initialized := d.HasNode && lookup(d.NodeLabels, v1.NodeInitializedLabelKey) == "true"
+		switch {
+		case !d.HasClaim:
+			d.Stage = "unmanaged"
+		case !d.HasNode:
+			d.Stage = "claim-only"
+		case !registered:
+			d.Stage = "unregistered"
+		case !initialized:
+			d.Stage = "registered"
+		default:
+			d.Stage = "initialized"
+		}
+		out = append(out, *d)
+	}
+	return out
+}
+
+func lookup(kv [][2]string, k string) string {
+	for _, p := range kv {
+		if p[0] == k {
+			return p[1]
+		}
+	}
+	return ""
+}
+
+func (d snDump) deleting() bool {
+	return d.Marked || (d.HasClaim && d.CDeleting) || (d.HasNode && !d.HasClaim && d.NDeleting)
+}
+
 func gSN(d snDump) string {
 	return fmt.Sprintf("(mkSN %s %s %s %s %s %s %s %s %s %s %s %s %s %s %s %s %s)", kit.GBool(d.HasNode), kit.GBool(d.HasClaim), gs(d.NodeName), gs(d.ClaimName),
 		gPairs(d.NodeLabels), gPairs(d.ClaimLabels), kit.GListOf(d.NodeTaints, gTaint), kit.GListOf(d.ClaimTaints, gTaint), kit.GListOf(d.Startup, gTaint),
@@ -244,11 +366,11 @@ func (m *mp) runPass(c *kit.Ctx, label string, markedIDs map[string]bool, world 
 		return &passOut{}, nil
 	}
 	out := &passOut{Errors: map[string]string{}}
-	sort.Slice(nodes, func(i, j int) bool { return nodes[i].ProviderID() < nodes[j].ProviderID() })
-	for _, sn := range nodes {
-		d := m.dumpSN(sn, markedIDs)
-		out.SNs = append(out.SNs, d)
-		if sn.MarkedForDeletion() {
+	_ = nodes
+	// the state nodes handed to the model come from the API, not from the cluster state the scheduler used
+	out.SNs = m.apiSNs(c)
+	for _, d := range out.SNs {
+		if d.deleting() {
 			c.Count("statenode.deleting." + d.Stage)
 		} else {
 			c.Count("statenode.active." + d.Stage)
